@@ -84,8 +84,9 @@ def main():
     after = [outcome(*b) for b in built]
     if cold:
         seq = after
-    unchanged = all(k is None or (a.shape == k.shape and np.array_equal(a, k, equal_nan=(a.dtype.kind == "f")))
-                    for (_, args, _), ks in zip(built, keep) for a, k in zip(args, ks))
+    unchanged = all(k is None or pos in (c.get("inplace") or []) or
+                    (a.shape == k.shape and np.array_equal(a, k, equal_nan=(a.dtype.kind == "f")))
+                    for c, (_, args, _), ks in zip(calls, built, keep) for pos, (a, k) in enumerate(zip(args, ks)))
     drift = [{"obj": i, "shape": list(o.shape), "before": b, "after": a} for i, (o, b, a) in enumerate(zip(objs, ref0, ref1)) if a != b]
     print("RES " + json.dumps({"seq": seq, "conc": conc, "after": after, "refdrift": drift, "args_unchanged": unchanged}, default=repr),
           flush=True)
